@@ -14,9 +14,9 @@ def build(res):
 
 def scripts(dt, hx, rng, n_hint):
     L = len(hx) // 2 if hx != "-" else 0
-    k = 6 + min(60, n_hint)
+    k = 5 + min(8, n_hint)   # few repeated calls: a hostile depth-31 code table costs ~4 s and 2 GiB per call
     yield "rdec %s %s" % (dt, hx)
-    yield "rhist %s 100000 w:%s h %s" % (dt, hx, " ".join(["m", "s", "m", "b"] * 4))
+    yield "rhist %s 100000 w:%s h %s" % (dt, hx, " ".join(["m", "s", "m", "b"] * 2))
     yield "rhist %s %d w:%s %s" % (dt, rng.choice([1, 30, 100000]), hx, " ".join(["n"] * k))
     if L <= 120:
         ops = []
